@@ -146,6 +146,26 @@ theorem restrict_agree (v : PVal α) (hv : (v.map (·.1)).Nodup) (e : Expr α) (
   · rw [(expr_restrict v e).1, h4, heb]
 end
 
+
+theorem override_append (ρ : α → Bool) (w v : PVal α) :
+    override ρ (w ++ v) = override (override ρ v) w := by
+  funext x
+  simp only [override, PVal.get?, List.find?_append]
+  cases h : List.find? (fun p => p.1 == x) w <;> simp
+
+/-- restricting in two steps is restricting once by both assignments (the first one wins on a clash) -/
+theorem expr_restrict_restrict (w v : PVal α) (e : Expr α) (ρ : α → Bool) :
+    ((e.restrict w).restrict v).den ρ = (e.restrict (w ++ v)).den ρ := by
+  rw [(expr_restrict v _).1, (expr_restrict w e).1, (expr_restrict (w ++ v) e).1, override_append]
+
+section
+variable [Ord α]
+theorem table_restrict_restrict (w v : PVal α) (t : Table α) (ht : t.WF) (ρ : α → Bool) :
+    ((t.restrict w).restrict v).den ρ = (t.restrict (w ++ v)).den ρ := by
+  have h1 := table_restrict w t ht
+  rw [(table_restrict v _ h1.1).2.2, h1.2.2, (table_restrict (w ++ v) t ht).2.2, override_append]
+end
+
 /-- non-vacuity: two inputs fixed plus a foreign key on a three-input table -/
 example : (Table.restrict [(1, true), (2, true), (9, false)]
     (⟨[1, 2, 3], [false, false, false, true, false, true, true, true]⟩ : Table Nat)) = ⟨[3], [true, true]⟩ := by decide
